@@ -15,7 +15,7 @@ enum V {
     I32(i32),
     U32(u32),
     F32(f32),
-    Str(usize),
+    Str(usize, u32), // text id, byte offset used in the input table
     Bool(bool),
     U8(u8),
     I8(i8),
@@ -83,7 +83,7 @@ fn gen_val(ty: &str, is_key: bool, n: usize, npool: usize, cls: &str, rng: &mut 
         "Int32" => V::I32(rng.next_u32() as i32),
         "UInt32" => V::U32(rng.next_u32()),
         "Float32" => V::F32(if rng.chance(1, 10) { -0.0 } else { (rng.f32() - 0.5) * 1.0e6 }),
-        "String" => V::Str(if cls == "empty" && rng.chance(2, 3) { 0 } else { rng.below(npool as u64) as usize }),
+        "String" => V::Str(if cls == "empty" && rng.chance(2, 3) { 0 } else { rng.below(npool as u64) as usize }, 0),
         "Bool" => V::Bool(rng.chance(1, 2)),
         "UInt8" => V::U8(rng.byte()),
         "Int8" => V::I8(rng.byte() as i8),
@@ -102,7 +102,7 @@ fn render_src(rec: &[Vec<V>], pool: &[String]) -> String {
                 V::I32(x) => s.push_str(&format!("i{x},")),
                 V::U32(x) => s.push_str(&format!("u{x},")),
                 V::F32(x) => s.push_str(&format!("f{:08x},", x.to_bits())),
-                V::Str(i) => s.push_str(&format!("s{:?},", pool[*i])),
+                V::Str(i, _) => s.push_str(&format!("s{:?},", pool[*i])),
                 V::Bool(x) => s.push_str(&format!("b{x},")),
                 V::U8(x) => s.push_str(&format!("u8:{x},")),
                 V::I8(x) => s.push_str(&format!("i8:{x},")),
@@ -220,15 +220,6 @@ fn run_case(case: &str, c: &Value, rng: &mut Rng, scratch: &Scratch) -> Vec<Valu
 
     // ---- the table and its byte image (harness-owned encoder, layout numbers from TLC) ----
     let pool = pool(cls, rng);
-    let mut table: Vec<Vec<Vec<V>>> = Vec::with_capacity(n);
-    for _ in 0..n {
-        let mut rec = Vec::new();
-        for (fi, (ty, arr)) in fields.iter().enumerate() {
-            let elems = if *arr == 0 { 1 } else { *arr };
-            rec.push((0..elems).map(|_| gen_val(ty, fi + 1 == key, n, pool.len(), cls, rng)).collect::<Vec<V>>());
-        }
-        table.push(rec);
-    }
     // string block of the input file: the empty string, then the pool in REVERSE order, used or not;
     // every second string is stored a SECOND time further on (legal input: the same text at two
     // offsets), and references pick either copy -- the writer has to fold them into one.
@@ -251,6 +242,56 @@ fn run_case(case: &str, c: &Value, rng: &mut Rng, scratch: &Scratch) -> Vec<Valu
     // a second empty string at the very end of the block
     off_alt[0] = block.len() as u32;
     block.push(0);
+    // texts the table refers to: pool entries and, for references that do not point at the start of a stored
+    // string, their suffixes (kinds chosen by TLC: start / inside / nul / zero / last)
+    let refkinds: Vec<String> = ga(c, "refkinds").iter().map(|k| k.as_str().unwrap().to_string()).collect();
+    let mut texts: Vec<String> = pool.clone();
+    let mut text_id: HashMap<String, usize> = texts.iter().enumerate().map(|(i, t)| (t.clone(), i)).collect();
+    let mut nref = 0usize;
+    let mut kinds_used: std::collections::BTreeSet<String> = Default::default();
+    let mut table: Vec<Vec<Vec<V>>> = Vec::with_capacity(n);
+    for _ in 0..n {
+        let mut rec = Vec::new();
+        for (fi, (ty, arr)) in fields.iter().enumerate() {
+            let elems = if *arr == 0 { 1 } else { *arr };
+            let mut cells = Vec::new();
+            for _ in 0..elems {
+                let v = gen_val(ty, fi + 1 == key, n, pool.len(), cls, rng);
+                let v = if let V::Str(i, _) = v {
+                    let base = if rng.chance(1, 2) { off_of[i] } else { off_alt[i] };
+                    let kind = refkinds[nref % refkinds.len()].as_str();
+                    nref += 1;
+                    let len = pool[i].len();
+                    let (off, text): (u32, String) = match kind {
+                        "inside" if len >= 2 => {
+                            // a char boundary strictly inside the string
+                            let mut sk = 1 + rng.below(len as u64 - 1) as usize;
+                            while !pool[i].is_char_boundary(sk) {
+                                sk += 1;
+                            }
+                            (base + sk as u32, pool[i][sk..].to_string())
+                        }
+                        "nul" => (base + len as u32, String::new()),
+                        "zero" => (0, String::new()),
+                        "last" => (block.len() as u32 - 1, String::new()),
+                        _ => (base, pool[i].clone()),
+                    };
+                    kinds_used.insert(kind.to_string());
+                    let tid = *text_id.entry(text.clone()).or_insert_with(|| {
+                        texts.push(text);
+                        texts.len() - 1
+                    });
+                    V::Str(tid, off)
+                } else {
+                    v
+                };
+                cells.push(v);
+            }
+            rec.push(cells);
+        }
+        table.push(rec);
+    }
+    let pool = texts; // from here on "pool" = every text the table can resolve to
     let mut bytes0 = Vec::with_capacity(20 + n * rs + block.len());
     bytes0.extend_from_slice(b"WDBC");
     for v in [n as u32, fc, rs as u32, block.len() as u32] {
@@ -265,7 +306,7 @@ fn run_case(case: &str, c: &Value, rng: &mut Rng, scratch: &Scratch) -> Vec<Valu
                     V::I32(x) => x.to_le_bytes().to_vec(),
                     V::U32(x) => x.to_le_bytes().to_vec(),
                     V::F32(x) => x.to_le_bytes().to_vec(),
-                    V::Str(i) => (if rng.chance(1, 2) { off_of[*i] } else { off_alt[*i] }).to_le_bytes().to_vec(),
+                    V::Str(_, off) => off.to_le_bytes().to_vec(),
                     V::Bool(x) => (*x as u32).to_le_bytes().to_vec(),
                     V::U8(x) => vec![*x],
                     V::I8(x) => vec![*x as u8],
@@ -287,8 +328,8 @@ fn run_case(case: &str, c: &Value, rng: &mut Rng, scratch: &Scratch) -> Vec<Valu
     let small = n <= 128; // per-index events only for small tables
     let rtoks: Vec<String> = if small { toks8(&src_rows) } else { Vec::new() };
     let used: std::collections::HashSet<usize> =
-        table.iter().flatten().flatten().filter_map(|v| if let V::Str(i) = v { Some(*i) } else { None }).collect();
-    evs.push(json!({"ev":"Build","case":case,"len":bytes0.len(),"hdr":[n, fc, rs, block.len()],"rtok":src_tok,"nstr":used.len(),"hasEmpty":used.contains(&0),"rtoks":rtoks}));
+        table.iter().flatten().flatten().filter_map(|v| if let V::Str(i, _) = v { Some(*i) } else { None }).collect();
+    evs.push(json!({"ev":"Build","case":case,"len":bytes0.len(),"hdr":[n, fc, rs, block.len()],"rtok":src_tok,"nstr":used.len(),"hasEmpty":used.contains(&0),"rtoks":rtoks,"refkinds":kinds_used.iter().collect::<Vec<_>>()}));
 
     let mk_schema = || {
         let mut s = Schema::new("T");
@@ -515,8 +556,21 @@ fn run_case(case: &str, c: &Value, rng: &mut Rng, scratch: &Scratch) -> Vec<Valu
         "hdr":[clip(wh[0]), clip(wh[1]), clip(wh[2]), clip(wh[3])],"blockInFile":block_ok,"block":blk}));
     if wres == "ok" {
         let (rres, rp) = parse_eager(&wbytes);
-        let rtok = rp.map(|(_, set)| render_set(set.records().iter(), &res_str(|r| set.get_string(r)))).unwrap_or_else(|| "-".into());
-        evs.push(json!({"ev":"Reparse","case":case,"res":rres,"rtok":rtok}));
+        let (rtok, ctok) = match rp {
+            Some((_, mut set)) => {
+                let a = render_set(set.records().iter(), &res_str(|r| set.get_string(r)));
+                let b = match guarded(|| {
+                    set.enable_string_caching();
+                    render_set(set.records().iter(), &res_str(|r| set.get_string(r)))
+                }) {
+                    Outcome::Done(t) => t,
+                    _ => "panic".into(),
+                };
+                (a, b)
+            }
+            None => ("-".into(), "-".into()),
+        };
+        evs.push(json!({"ev":"Reparse","case":case,"res":rres,"rtok":rtok,"ctok":ctok}));
     }
     evs
 }
